@@ -630,6 +630,17 @@ var c09Mutations = []struct {
 	{"huge-number:fraction", jlit("1.5")},
 	{"huge-number:1e30", jlit("1e30")},
 	{"huge-number:-1e30", jlit("-1e30")},
+	{"huge-number:nine-decimals", jlit("0.123456789")},
+	{"huge-number:seventeen-decimals", jlit("0.30000000000000004")},
+	{"huge-number:1e-9", jlit("1e-9")},
+	{"huge-number:2.5e-8", jlit("2.5e-8")},
+	{"huge-number:1E-30", jlit("1E-30")},
+	{"huge-number:negative-fraction", jlit("-0.000000001")},
+	{"huge-number:thirty-decimals", jlit("21000000.000000000000000000000000000001")},
+	{"huge-number:2^28", jlit("268435456")},
+	{"huge-number:2^31", jlit("2147483648")},
+	{"huge-number:2^40", jlit("1099511627776")},
+	{"huge-number:2^63", jlit("9223372036854775808")},
 }
 
 // smallest documents of the shapes a node really produces or an attacker would
